@@ -30,7 +30,8 @@ LEVEL = "exploration"
 RULE = ("generated histories of 2-14 operations: request(kind) for every request kind with a defined reply entity (ping, last seen, "
         "picture get, statuses get, status set, privacy get, group create/leave/info/list/participants/add/remove/subject/promote/"
         "demote, contact sync, media upload) issued through YowInterfaceLayer._sendIq with recording callbacks; reply(i, result|error) "
-        "to any issued request in any order with a result stanza of the kind's catalogued shape; replay(i); reply with an unknown id; "
+        "to any issued request in any order with a result stanza of the kind's catalogued shape (in about a fifth of the requests the reply "
+        "is processed while the sender is still inside the send call, as a reader thread can do); replay(i); reply with an unknown id; "
         "non-reply stanza (receipt / ack / notification) carrying the id of request i; server iq type=get with a fresh id or with the "
         "id of an outstanding request; with the encryption layers also library-internal requests (key fetch for a first message, group "
         "info + key fetch for a first group message) answered by harness-built key bundles. Non-trivial = at least 2 requests "
@@ -208,7 +209,21 @@ def _run(case, out, rig, axolotl):
             idx = len(issued)
             n_bottom = len(rig.bottom.sent)
             app_ids.add(ent.getId())
+            sync = op[4] if len(op) > 4 else None
+            sync_exc = []
+            if sync:
+                # the reply is processed (by the connection's reader) while the sending thread is still inside the send call
+                sync_tree = set_id(G.materialize(op[5]), ent.getId())
+
+                def answer_now(_node, _t=sync_tree):
+                    try:
+                        rig.inject(T.to_node(_t))
+                    except Exception as e:
+                        sync_exc.append(e)
+                rig.bottom.on_send = answer_now
+            n_got = len(app.got)
             app._sendIq(ent, ok_cb(idx), err_cb(idx))
+            rig.bottom.on_send = None
             new = rig.bottom.sent[n_bottom:]
             if len(new) != 1 or new[0]["id"] != ent.getId():
                 out.fail("request", "request:%s:not_transmitted_once" % op[1], {"step": step, "n": len(new)})
@@ -216,6 +231,21 @@ def _run(case, out, rig, axolotl):
             app_ids.add(ent.getId())
             issued.append({"id": ent.getId(), "kind": op[1], "entity": ent, "state": "outstanding", "last_reply": None})
             out.label("req:" + op[1].replace("ProtocolEntity", ""))
+            if sync:
+                op_target[0] = idx
+                special = True
+                out.label("reply_inside_send:" + sync)
+                if sync_exc:
+                    out.fail("callbacks", "iq_reply:%s:reply_inside_send:%s:raises:%s" % (op[1], sync, type(sync_exc[0]).__name__),
+                             {"step": step, "error": repr(sync_exc[0])[:300]})
+                    return out
+                expected_log.append(("success" if sync == "result" else "error", idx))
+                issued[-1]["state"] = "answered"
+                issued[-1]["last_reply"] = sync_tree
+                if len(app.got) != n_got:
+                    out.fail("callbacks", "iq_reply:%s:reply_inside_send:%s:also_delivered_as_ordinary_entity" % (op[1], sync),
+                             {"step": step, "extra": [type(e).__name__ for e in app.got[n_got:]]})
+                    return out
             max_outstanding = max(max_outstanding, len([r for r in issued if r["state"] == "outstanding"]))
         elif kind == "reply":
             if not issued:
@@ -433,6 +463,10 @@ def script_strategy():
             if choice <= 3 or not kinds_issued:
                 op = draw(req)
                 kinds_issued.append(op[1])
+                if draw(st.integers(0, 4)) == 0:
+                    mode = draw(st.sampled_from(["result", "result", "error"]))
+                    shape = result_shape(op[1]) if mode == "result" else ERROR_SHAPE
+                    op = op + [mode, S.tree_to_json(draw(S.shape_strategy(shape)))]
                 ops.append(op)
             elif choice <= 7:
                 i = draw(sel) % len(kinds_issued)
@@ -468,6 +502,9 @@ def single_kind_strategy(kind):
         mode = draw(st.sampled_from(["result", "error"]))
         shape = result_shape(kind) if mode == "result" else ERROR_SHAPE
         reply = S.tree_to_json(draw(S.shape_strategy(shape)))
+        if draw(st.integers(0, 3)) == 0:
+            return {"sub": "history", "axolotl": draw(st.booleans()),
+                    "ops": [["req", kind, ak[0], ak[1], mode, reply], ["replay", 0], ["reply", 0, mode, reply]]}
         return {"sub": "history", "axolotl": draw(st.booleans()),
                 "ops": [["req", kind, ak[0], ak[1]], ["reply", 0, mode, reply], ["replay", 0]]}
     return build()
